@@ -6,13 +6,35 @@ from pathlib import Path
 ROOT = Path(__file__).resolve().parent.parent
 ALL = [f"C{i:02d}" for i in range(1, 19)]
 
+TECH = "contract-based deductive verification: sidecar contracts on the real functions, AST-to-SMT VC generation (pyvc), z3/cvc5"
 CHECKS = {
     "C03": dict(
         category="proof",
-        text="Every row of the binary/unary constant-fold tables is proved equal to the IC10 instruction it stands for, for all operands in the property's domain (z3 FP/BV theories), re-extracted from the working tree on every run.",
+        text="Every row of the binary/unary constant-fold tables is proved equal to the IC10 instruction it stands for, for all operands in the property's domain (z3 FP/BV theories); operand evaluation (_e, HASH tokens) is proved against the signed-CRC-32 spec. Re-extracted from the working tree on every run.",
         design_ref="6.C03",
-        note="Trusted: spec/ic10_ops.py, pyvc's encoding of Python (DESIGN 4), z3/cvc5, A-libm (fmod/pow shared with the game).",
-        technique="contract-based deductive verification: sidecar contracts, AST-to-SMT VC generation (pyvc), z3/cvc5",
+        note="Trusted: spec/ic10_ops.py, spec/tokens.py, pyvc's encoding of Python (DESIGN 4), z3/cvc5, A-libm (fmod/pow shared with the game). Propagation passes (astroid walkers) are outside the verifier's reach.",
+        technique=TECH,
+    ),
+    "C08": dict(
+        category="proof",
+        text="Token functions that depend on the output mode (calc_hash, _apply_output_mode, compute_hash, compute_string, _e) are proved, for all strings/numbers and all modes, to render a token either symbolically or as exactly its numeric value.",
+        design_ref="6.C08",
+        note="Trusted: spec/tokens.py, spec/crc32.py, zlib.crc32 == CRC-32 (assumed, cross-checked), pyvc encoding of Python strings (z3 seq theory, validated models only).",
+        technique=TECH,
+    ),
+    "C16": dict(
+        category="proof",
+        text="Finite tables: every structure class, intrinsic wrapper and enum member yields closed obligations that are decided exhaustively by evaluation against independent specs (bit-serial CRC-32, ISA operand table, ic10.json).",
+        design_ref="6.C16",
+        note="Trusted: spec/crc32.py, spec/ic10_isa.py, spec/enum_snapshot.json (pinned game data), the Python import of the generated modules.",
+        technique="contract-based verification of finite tables: exhaustive ground obligations evaluated against trusted specs",
+    ),
+    "C18": dict(
+        category="proof",
+        text="encode_data/decode_data carry contracts over an array model of strings; the substitution/padding arithmetic is proved for texts of every length (quantified VCs, e-matching), the round trip follows from the two contracts; json/zlib/base64/UTF-8 round-trip contracts are assumed.",
+        design_ref="6.C18",
+        note="Assumed (not proved): json, zlib, base64, UTF-8 library contracts listed in the evidence; trusted: pyvc array-string model, z3.",
+        technique=TECH,
     ),
 }
 NA = {}
